@@ -392,6 +392,12 @@ Strengthening (batch axis made precise; see DetCfg!Projections, FileKinds, gen/d
     the same file twice (sig syme-codes; hooks/candidate-C08-stab-serial-per-file.diff removes the triv1 case, one byte still differs
     for a file that follows a file with errors -- not traced);
   - a library-free file compiled after a library-using one records a reference to lang.ao and extra meanings in its .ao.
+  - thorough tier / corpus scan (every corpus file after one small axllib file, -Q0/default/-Q3): 11 corpus files get DIFFERENT CODE
+    in a batch (10 of them `extend' a library domain: the domain is then taken from another library unit, e.g. basic_Integer for
+    integer_Integer); 5 of the batch-compiled .ao (t986, bug1272, opt2, t1059, bug885) die with a segmentation violation under
+    -Ginterp where the separately compiled ones run correctly -- the batch defect is not "equivalent code".  Keyed by origin.
+  - the diagnostics of library-free files that lack Boolean (linear4, scan4) differ after an axllib file (Boolean still known).
+ Pitfall met: (EElt format ref level slot name) -- the slot is the 4th child, removing the 2nd one drops the reference expression.
  Projections tried and found stable on HEAD over all 72 pairs + 100 3-file + 100 4-file batches of the family and 30-60 random
  2-4-file batches of corpus/generated programs, seeds 1, 2, 3: all of PROJECTIONS.  Dropped because not invariant under the recorded
  renumbering: ao size, ao printable strings (the number of meanings and the list of library files change), lsp tags with slot numbers.
